@@ -526,8 +526,21 @@ class _Inliner:
             if k.arg in bind:
                 return None
             bind[k.arg] = k.value
+        extra_prefix = []
         if any(not _pure(a) for a in extra) or any(not _pure(k.value) for k in extrakw):
-            return None
+            # forwarded arguments with something to evaluate: evaluated once, in order, before the helper's body (as at a call)
+            if extrakw and any(not _pure(k.value) for k in extrakw):
+                return None
+            new_extra = []
+            for j, a in enumerate(extra):
+                if _pure(a):
+                    new_extra.append(a)
+                else:
+                    tmp = f'{tag}arg{j}'
+                    extra_prefix.append(ast.Assign(targets=[ast.Name(id=tmp, ctx=ast.Store())], value=a))
+                    new_extra.append(ast.Name(id=tmp, ctx=ast.Load()))
+            # (the pure ones before an impure one must not be re-ordered past it: names and constants are unaffected by evaluation)
+            extra = new_extra
         for p in pos + kwonly:
             if p not in bind:
                 d = defaults.get(p, kwdefaults.get(p))
@@ -548,7 +561,7 @@ class _Inliner:
             for p_, a_ in bind.items():
                 if isinstance(a_, ast.Name) and a_.id in caller_stores:
                     return None
-        prefix = []
+        prefix = list(extra_prefix)
         mapping = {}
         # `v = helper(v, ...)`: the caller's v is dead once the statement completes, so the helper's parameter can be v itself
         reuse = None
@@ -781,7 +794,7 @@ class _Inliner:
                         # leave each rewritten caller in its normal form (the next helper may only become integrable then)
                         for key2, mod2, cls2, fn2, _c2 in list(_functions(self.mods)):
                             if key2 in touched.get(mod2, ()):
-                                nb = [_OperatorCalls().visit(b) for b in fn2.body]
+                                nb = [_OperatorCalls(_literal_tables(self.mods[mod2])).visit(b) for b in fn2.body]
                                 fn2.body = nb
                                 tidy(fn2)
                         cands.pop(name)
@@ -975,10 +988,81 @@ _OPERATOR_INPLACE = {'iand': ast.BitAnd, 'ior': ast.BitOr, 'ixor': ast.BitXor, '
                      'ilshift': ast.LShift, 'irshift': ast.RShift}
 
 
+def _literal_tables(tree):
+    """Module-level dict / tuple literals that are only ever read (name -> literal node)."""
+    out = {}
+    for n in tree.body:
+        tgt = val = None
+        if isinstance(n, ast.Assign) and len(n.targets) == 1 and isinstance(n.targets[0], ast.Name):
+            tgt, val = n.targets[0].id, n.value
+        elif isinstance(n, ast.AnnAssign) and isinstance(n.target, ast.Name) and n.value is not None:
+            tgt, val = n.target.id, n.value
+        if tgt and isinstance(val, (ast.Dict, ast.Tuple)):
+            out[tgt] = val
+    for x in ast.walk(tree):
+        if isinstance(x, ast.Name) and x.id in out and isinstance(x.ctx, (ast.Store, ast.Del)) and sum(
+                1 for n in tree.body for y in ast.walk(n) if isinstance(y, ast.Name) and y.id == x.id and isinstance(y.ctx, ast.Store)) > 1:
+            out.pop(x.id, None)
+    # any use other than a subscript load could change it (passed around, .update(), ...)
+    parents = {}
+    for p_ in ast.walk(tree):
+        for c in ast.iter_child_nodes(p_):
+            parents[id(c)] = p_
+    for x in ast.walk(tree):
+        if isinstance(x, ast.Name) and x.id in out and isinstance(x.ctx, ast.Load):
+            par = parents.get(id(x))
+            ok = (isinstance(par, ast.Subscript) and par.value is x and isinstance(par.ctx, ast.Load)) or \
+                (isinstance(par, ast.Compare) and x in par.comparators and all(isinstance(o, (ast.In, ast.NotIn)) for o in par.ops)) or \
+                isinstance(par, (ast.For, ast.comprehension))
+            if not ok:
+                out.pop(x.id, None)
+    return out
+
+
+def _simple_literal(e, depth=0):
+    if isinstance(e, (ast.Name, ast.Constant)):
+        return True
+    if isinstance(e, ast.Attribute):
+        return _simple_literal(e.value, depth)
+    if isinstance(e, (ast.Tuple, ast.List)) and depth < 3:
+        return all(_simple_literal(x, depth + 1) for x in e.elts)
+    if isinstance(e, ast.Dict) and depth < 3:
+        return all(k is not None and isinstance(k, ast.Constant) for k in e.keys) and all(_simple_literal(v, depth + 1) for v in e.values)
+    return False
+
+
 class _OperatorCalls(ast.NodeTransformer):
     """operator.and_(a, b) -> a & b (what it means), so that an operator handed to a merged helper reads as the operator.
     The in-place forms are only rewritten where they mean exactly an augmented assignment: `X = operator.ior(X, Y)` -> `X |= Y`
     (anywhere else they stay calls: `a | b` would hide that the left operand is modified)."""
+    def __init__(self, tables=None):
+        self.tables = tables or {}
+
+    def visit_Subscript(self, node):
+        self.generic_visit(node)
+        if not isinstance(node.ctx, ast.Load) or isinstance(node.slice, ast.Slice):
+            return node
+        base = node.value
+        if isinstance(base, ast.Name) and base.id in self.tables:
+            base = self.tables[base.id]
+        # TABLE['key'] / {..}['key'] with a literal key the literal lists: the value it lists
+        if isinstance(base, ast.Dict) and isinstance(node.slice, ast.Constant) and all(k is not None and isinstance(k, ast.Constant) for k in base.keys):
+            hits = [v for k, v in zip(base.keys, base.values) if k.value == node.slice.value and type(k.value) is type(node.slice.value)]
+            if len(hits) == 1 and _simple_literal(hits[0]):
+                return ast.copy_location(copy.deepcopy(hits[0]), node)
+        # {True: A, False: B}[<comparison>]: A if <comparison> else B
+        if isinstance(base, ast.Dict) and len(base.keys) == 2 and all(isinstance(k, ast.Constant) and isinstance(k.value, bool) for k in base.keys) \
+                and {k.value for k in base.keys} == {True, False} and isinstance(node.slice, (ast.Compare, ast.BoolOp)) \
+                and all(_simple_literal(v) for v in base.values):
+            t = next(v for k, v in zip(base.keys, base.values) if k.value is True)
+            f = next(v for k, v in zip(base.keys, base.values) if k.value is False)
+            return ast.copy_location(ast.IfExp(test=node.slice, body=copy.deepcopy(t), orelse=copy.deepcopy(f)), node)
+        if isinstance(base, ast.Tuple) and isinstance(node.slice, ast.Constant) and isinstance(node.slice.value, int) \
+                and not isinstance(node.slice.value, bool) and -len(base.elts) <= node.slice.value < len(base.elts) and isinstance(node.value, ast.Tuple) \
+                and _simple_literal(base):
+            return ast.copy_location(copy.deepcopy(base.elts[node.slice.value]), node)
+        return node
+
     def visit_Assign(self, node):
         v = node.value
         if isinstance(v, ast.Call) and isinstance(v.func, ast.Attribute) and isinstance(v.func.value, ast.Name) and v.func.value.id == 'operator' \
@@ -1206,6 +1290,36 @@ def _copyprop(fn):
                 reads_all = sum(1 for x in ast.walk(fn) if isinstance(x, ast.Name) and x.id == u and isinstance(x.ctx, ast.Load))
                 reads_later = sum(1 for st in later for x in ast.walk(st) if isinstance(x, ast.Name) and x.id == u and isinstance(x.ctx, ast.Load))
                 if not nested and reads_all == reads_later:
+                    sb = _Subst({u: a.value})
+                    sub[i + 1:] = [sb.visit(st) for st in later]
+                    del sub[i]
+                    changed = True
+                    continue
+            if isinstance(a, ast.Assign) and len(a.targets) == 1 and isinstance(a.targets[0], ast.Name) and a.targets[0].id.startswith('_inl') \
+                    and _stores(fn, a.targets[0].id) == 1 and i + 1 < len(sub) and not isinstance(a.value, (ast.Constant, ast.Name)) \
+                    and not any(isinstance(y, (ast.Call, ast.Lambda, ast.NamedExpr, ast.Await, ast.Yield, ast.ListComp, ast.GeneratorExp, ast.DictComp, ast.SetComp))
+                                for y in ast.walk(a.value)):
+                # a helper's result held in a temporary for one statement: `_ret = tokens * factor; out.extend(_ret)`
+                u = a.targets[0].id
+                nxt = sub[i + 1]
+                reads_all = sum(1 for x in ast.walk(fn) if isinstance(x, ast.Name) and x.id == u and isinstance(x.ctx, ast.Load))
+                heads = [nxt] if not isinstance(nxt, (ast.If, ast.For, ast.While, ast.With, ast.Try, ast.FunctionDef)) else []
+                reads_next = sum(1 for st in heads for x in ast.walk(st) if isinstance(x, ast.Name) and x.id == u and isinstance(x.ctx, ast.Load))
+                in_scope = not any(isinstance(x, (ast.Lambda, ast.ListComp, ast.GeneratorExp, ast.DictComp, ast.SetComp)) and any(
+                    isinstance(y, ast.Name) and y.id == u for y in ast.walk(x)) for st in heads for x in ast.walk(st))
+                if reads_all == 1 and reads_next == 1 and in_scope:
+                    sub[i + 1] = _Subst({u: a.value}).visit(nxt)
+                    del sub[i]
+                    changed = True
+                    continue
+            if isinstance(a, ast.Assign) and len(a.targets) == 1 and isinstance(a.targets[0], ast.Name) and isinstance(a.value, ast.Constant) \
+                    and _stores(fn, a.targets[0].id) == 1 and a.targets[0].id.startswith('_inl'):
+                # a helper's local that is a literal (`length = 6` out of a table row)
+                u = a.targets[0].id
+                later = sub[i + 1:]
+                reads_all = sum(1 for x in ast.walk(fn) if isinstance(x, ast.Name) and x.id == u and isinstance(x.ctx, ast.Load))
+                reads_later = sum(1 for st in later for x in ast.walk(st) if isinstance(x, ast.Name) and x.id == u and isinstance(x.ctx, ast.Load))
+                if reads_all == reads_later:
                     sb = _Subst({u: a.value})
                     sub[i + 1:] = [sb.visit(st) for st in later]
                     del sub[i]
@@ -1577,9 +1691,11 @@ def integrate(mods, src):
                 for k in n.body:
                     if isinstance(k, ast.FunctionDef):
                         lines.setdefault(f'{n.name}.{k.name}', k.lineno)
-        tree = _OperatorCalls().visit(mods[mod])
+        tree = mods[mod]
+        tabs = _literal_tables(tree)
         for key, m2, cls, fn, container in list(_functions({mod: tree})):
             if key in touched[mod]:
+                fn.body = [_OperatorCalls(tabs).visit(b) for b in fn.body]
                 tidy(fn)
         ast.fix_missing_locations(tree)
         mods[mod] = ast.parse(ast.unparse(tree))
